@@ -391,3 +391,64 @@ func init() {
 		})
 	})
 }
+
+// sort.Slice / sort.SliceStable: insertion sort driving the caller's less function
+// (stable; any correct sort yields the same permutation up to elements less cannot distinguish)
+func init() {
+	sortSlice := func(e *Engine, st *State, c *callCtx) bool {
+		iv, ok := c.args[0].(IfaceVal)
+		if !ok || iv.T == nil {
+			unsup("sort.Slice on %s", describe(c.args[0]))
+		}
+		sl, ok := iv.V.(SliceVal)
+		if !ok {
+			unsup("sort.Slice on non-slice")
+		}
+		less, ok := c.args[1].(FuncVal)
+		if !ok {
+			unsup("sort.Slice without less function")
+		}
+		if sl.Obj == 0 {
+			c.ret(st, nil)
+			return true
+		}
+		return e.concretize(st, sl.Len, "sort.Slice len", func(s0 *State, n int) {
+			e.concretize(s0, sl.Off, "sort.Slice off", func(s1 *State, off int) {
+				var step func(s *State, i, j int)
+				step = func(s *State, i, j int) {
+					if i >= n {
+						c.ret(s, nil)
+						return
+					}
+					if j == 0 {
+						step(s, i+1, i+1)
+						return
+					}
+					e.invoke(s, less, []Value{KInt64(int64(j)), KInt64(int64(j - 1))}, c.site, func(s2 *State, rv Value) {
+						r, ok := rv.(*Term)
+						if !ok {
+							unsup("sort.Slice: less returned %s", describe(rv))
+						}
+						e.branch(s2, []Alt{
+							{Cond: r, Tag: "less", Do: func(s3 *State) {
+								o := s3.heap[sl.Obj]
+								av, ok := o.V.(ArrayVal)
+								if !ok {
+									unsup("sort.Slice on integer slices")
+								}
+								ne := append([]Value(nil), av.E...)
+								ne[off+j], ne[off+j-1] = ne[off+j-1], ne[off+j]
+								s3.heap[sl.Obj] = &Obj{V: ArrayVal{E: ne}, T: o.T}
+								step(s3, i, j-1)
+							}},
+							{Cond: Not(r), Tag: "!less", Do: func(s3 *State) { step(s3, i+1, i+1) }},
+						})
+					})
+				}
+				step(s1, 1, 1)
+			})
+		})
+	}
+	reg("sort.Slice", sortSlice)
+	reg("sort.SliceStable", sortSlice)
+}
